@@ -226,6 +226,23 @@ def sign_of(e, var, sign):
     return None
 
 
+def bounded_status(e, var):
+    """the integer is within 0..255 whatever the count is (an exit status is truncated to one byte by the OS)"""
+    if isinstance(e, ast.Constant) and isinstance(e.value, (int, bool)):
+        return 0 <= int(e.value) <= 255
+    if isinstance(e, (ast.Compare, ast.BoolOp)) or (isinstance(e, ast.UnaryOp) and isinstance(e.op, ast.Not)):
+        return True
+    if isinstance(e, ast.Call) and isinstance(e.func, ast.Name) and e.func.id == 'bool':
+        return True
+    if isinstance(e, ast.Call) and isinstance(e.func, ast.Name) and e.func.id == 'int' and len(e.args) == 1:
+        return bounded_status(e.args[0], var)
+    if isinstance(e, ast.Call) and is_name(e.func, 'min') and len(e.args) == 2:
+        return any(bounded_status(a, var) for a in e.args)
+    if isinstance(e, ast.IfExp):
+        return bounded_status(e.body, var) and bounded_status(e.orelse, var)
+    return False
+
+
 def truth_of(e, var, sign):
     if is_name(e, var):
         return sign != 'zero'
@@ -297,6 +314,9 @@ def r4_exit_status(ctx):
             if s != want:
                 ok = False
                 bad.append((rn, s))
+            elif sign == 'pos' and rn.ast.value is not None and not bounded_status(rn.ast.value, var):
+                ok = False
+                bad.append((rn, 'unbounded: the process exit status is this value modulo 256, so 256 failing doctests exit 0'))
         rep.ob('C10.R4', ctx.loc(f, (bad[0][0].ast if bad else rets[0].ast) if rets else f.node), 'exit status | n_failed %s' % ('== 0' if sign == 'zero' else '> 0'), ok,
                'every reachable return is %s' % ('0' if sign == 'zero' else 'non-zero') if ok else
                'with n_failed %s main() can return %s' % ('== 0' if sign == 'zero' else '> 0', [('`%s` (%s)' % (ctx.src(r.ast), s)) for (r, s) in bad] or 'without a value'), anchor=MAIN)
@@ -398,6 +418,8 @@ RN = 'xdoctest/runner.py'
 MA = 'xdoctest/__main__.py'
 DE = 'xdoctest/doctest_example.py'
 VARIANTS = [
+    fire('exit-status-is-the-count', 'C10.R4', ('xdoctest/__main__.py', "    if n_failed > 0:\n        return 1\n    else:\n        return 0\n", "    return n_failed\n")),
+    silent('exit-status-capped', ('xdoctest/__main__.py', "    if n_failed > 0:\n        return 1\n    else:\n        return 0\n", "    return min(n_failed, 1)\n")),
     fire('failed-list-includes-skipped', 'C10.R2', (RN, "            if summary['skipped']:\n                pass\n", "            if False:\n                pass\n")),
     fire('failed-list-only-when-verbose', 'C10.R2', (RN, "                failed.append(example)\n", "                if verbose:\n                    failed.append(example)\n")),
     fire('summary-not-recorded-for-skipped', 'C10.R2',
